@@ -39,12 +39,12 @@ fn collect<T>(rx: &Receiver<T>, queues_empty: &dyn Fn() -> bool, text: &dyn Fn(&
     out
 }
 
-fn pool_run(kind: Kind, frames: &[Vec<u8>], workers: usize, batch: usize, timeout: u64, db: &Arc<Database>) -> Result<Vec<String>, String> {
+fn pool_run(kind: Kind, frames: &[Vec<u8>], workers: usize, batch: usize, timeout: u64, db: &Arc<Database>, cap: usize) -> Result<Vec<String>, String> {
     huginn_net_tcp::uptime::verif_hooks::set_frozen_clock(Some(CLOCK));
     match kind {
         Kind::Tcp => {
             let (tx, rx) = channel();
-            let pool = huginn_net_tcp::WorkerPool::new(workers, 4096, batch, timeout, tx, Some(db.clone()), 1000, None).map_err(|e| e.to_string())?;
+            let pool = huginn_net_tcp::WorkerPool::new(workers, 4096, batch, timeout, tx, Some(db.clone()), cap, None).map_err(|e| e.to_string())?;
             for f in frames { if let huginn_net_tcp::DispatchResult::Dropped = pool.dispatch(f.clone()) { return Err("dropped".into()); } }
             let r = collect(&rx, &|| pool.stats().workers.iter().all(|w| w.queue_size == 0), &|x| tcp_text(x));
             pool.shutdown();
@@ -52,7 +52,7 @@ fn pool_run(kind: Kind, frames: &[Vec<u8>], workers: usize, batch: usize, timeou
         }
         Kind::Http => {
             let (tx, rx) = channel();
-            let pool = huginn_net_http::WorkerPool::new(workers, 4096, batch, timeout, tx, Some(db.clone()), 1000, None).map_err(|e| e.to_string())?;
+            let pool = huginn_net_http::WorkerPool::new(workers, 4096, batch, timeout, tx, Some(db.clone()), cap, None).map_err(|e| e.to_string())?;
             for f in frames { if let huginn_net_http::DispatchResult::Dropped = pool.dispatch(f.clone()) { return Err("dropped".into()); } }
             let r = collect(&rx, &|| pool.stats().workers.iter().all(|w| w.queue_size == 0), &|x| http_text(x));
             pool.shutdown();
@@ -60,7 +60,7 @@ fn pool_run(kind: Kind, frames: &[Vec<u8>], workers: usize, batch: usize, timeou
         }
         _ => {
             let (tx, rx) = channel();
-            let pool = huginn_net_tls::WorkerPool::new(workers, 4096, batch, timeout, tx, 1000, None).map_err(|e| e.to_string())?;
+            let pool = huginn_net_tls::WorkerPool::new(workers, 4096, batch, timeout, tx, cap, None).map_err(|e| e.to_string())?;
             for f in frames { if let huginn_net_tls::DispatchResult::Dropped = pool.dispatch(f.clone()) { return Err("dropped".into()); } }
             let r = collect(&rx, &|| pool.stats().workers.iter().all(|w| w.queue_size == 0), &|x| tls_text(x));
             pool.shutdown();
@@ -89,7 +89,7 @@ fn result_key(kind: Kind, text: &str) -> String {
 }
 
 /// the documented entry point: analyze_pcap in parallel mode vs analyze_pcap in sequential mode
-fn pcap_modes(kind: Kind, frames: &[Vec<u8>], workers: usize, batch: usize, timeout: u64, db: &Arc<Database>, tag: &str) -> Option<String> {
+fn pcap_modes(kind: Kind, frames: &[Vec<u8>], workers: usize, batch: usize, timeout: u64, db: &Arc<Database>, tag: &str, cap: usize) -> Option<String> {
     let dir = concat!(env!("CARGO_MANIFEST_DIR"), "/../../build/tmp");
     let _ = std::fs::create_dir_all(dir);
     let path = format!("{}/c10_{}.pcap", dir, tag);
@@ -100,11 +100,11 @@ fn pcap_modes(kind: Kind, frames: &[Vec<u8>], workers: usize, batch: usize, time
     match kind {
         Kind::Tcp => {
             let (tx, rx) = channel();
-            let mut a = huginn_net_tcp::HuginnNetTcp::new(Some(db.clone()), 1000).ok()?;
+            let mut a = huginn_net_tcp::HuginnNetTcp::new(Some(db.clone()), cap).ok()?;
             a.analyze_pcap(&path, tx, None).ok()?;
             seq = rx.try_iter().map(|x| tcp_text(&x)).filter(|s| !s.is_empty()).collect();
             let (tx, rx) = channel();
-            let mut b = huginn_net_tcp::HuginnNetTcp::with_config(Some(db.clone()), 1000, workers, 4096, batch, timeout).ok()?;
+            let mut b = huginn_net_tcp::HuginnNetTcp::with_config(Some(db.clone()), cap, workers, 4096, batch, timeout).ok()?;
             b.init_pool(tx.clone()).ok()?;
             b.analyze_pcap(&path, tx, None).ok()?;
             let pool = b.worker_pool();
@@ -112,11 +112,11 @@ fn pcap_modes(kind: Kind, frames: &[Vec<u8>], workers: usize, batch: usize, time
         }
         Kind::Http => {
             let (tx, rx) = channel();
-            let mut a = huginn_net_http::HuginnNetHttp::new(Some(db.clone()), 1000).ok()?;
+            let mut a = huginn_net_http::HuginnNetHttp::new(Some(db.clone()), cap).ok()?;
             a.analyze_pcap(&path, tx, None).ok()?;
             seq = rx.try_iter().map(|x| http_text(&x)).filter(|s| !s.is_empty()).collect();
             let (tx, rx) = channel();
-            let mut b = huginn_net_http::HuginnNetHttp::with_config(Some(db.clone()), 1000, workers, 4096, batch, timeout).ok()?;
+            let mut b = huginn_net_http::HuginnNetHttp::with_config(Some(db.clone()), cap, workers, 4096, batch, timeout).ok()?;
             b.init_pool(tx.clone()).ok()?;
             b.analyze_pcap(&path, tx, None).ok()?;
             let pool = b.worker_pool().cloned();
@@ -125,11 +125,11 @@ fn pcap_modes(kind: Kind, frames: &[Vec<u8>], workers: usize, batch: usize, time
         }
         _ => {
             let (tx, rx) = channel();
-            let mut a = huginn_net_tls::HuginnNetTls::new(1000);
+            let mut a = huginn_net_tls::HuginnNetTls::new(cap);
             a.analyze_pcap(&path, tx, None).ok()?;
             seq = rx.try_iter().map(|x| tls_text(&x)).collect();
             let (tx, rx) = channel();
-            let mut b = huginn_net_tls::HuginnNetTls::with_config_and_max_connections(workers, 4096, batch, timeout, 1000);
+            let mut b = huginn_net_tls::HuginnNetTls::with_config_and_max_connections(workers, 4096, batch, timeout, cap);
             b.init_pool(tx.clone()).ok()?;
             b.analyze_pcap(&path, tx, None).ok()?;
             let pool = b.worker_pool();
@@ -148,8 +148,8 @@ fn pcap_modes(kind: Kind, frames: &[Vec<u8>], workers: usize, batch: usize, time
 
 thread_local! { static DB: Arc<Database> = Arc::new(Database::load_default().expect("db")); }
 
-fn seq_texts(kind: Kind, frames: &[Vec<u8>], db: &Database) -> Vec<String> {
-    let mut a = Seq::new(kind, db, 1000);
+fn seq_texts(kind: Kind, frames: &[Vec<u8>], db: &Database, cap: usize) -> Vec<String> {
+    let mut a = Seq::new(kind, db, cap);
     frames.iter().map(|f| a.packet(f, CLOCK)).collect()
 }
 
@@ -168,14 +168,16 @@ fn run_l(toks: &[&str], workers: usize, batch: usize, timeout: u64) -> String {
 
 fn run(line: &str) -> String {
     let toks: Vec<&str> = line.split(' ').collect();
-    let kind = Kind::from(toks[0]);
+    let kind = Kind::from(&toks[0][..1]);
+    // optional flow-table capacity after the kind letter (e.g. l24): pool max_connections AND sequential capacity
+    let cap: usize = toks[0][1..].parse().unwrap_or(1000);
     let workers: usize = toks[2].parse().unwrap(); let batch: usize = toks[4].parse().unwrap(); let timeout: u64 = toks[6].parse().unwrap();
     if toks[7] == "L" { return run_l(&toks, workers, batch, timeout); }
     let spos = toks.iter().position(|t| *t == "S").unwrap();
     let frames: Vec<Vec<u8>> = toks[8..spos].iter().map(|t| unhex(t.rsplit(':').next().unwrap())).collect();
     DB.with(|db| {
-        let pool = match pool_run(kind, &frames, workers, batch, timeout, db) { Ok(r) => r, Err(e) => return format!("POOLERR {}", e) };
-        let seq: Vec<String> = seq_texts(kind, &frames, db).into_iter().filter(|s| !s.is_empty()).collect();
+        let pool = match pool_run(kind, &frames, workers, batch, timeout, db, cap) { Ok(r) => r, Err(e) => return format!("POOLERR {}", e) };
+        let seq: Vec<String> = seq_texts(kind, &frames, db, cap).into_iter().filter(|s| !s.is_empty()).collect();
         let mut ptoks: Vec<String> = pool.iter().map(|s| tok(s)).collect(); ptoks.sort();
         let mut out = ptoks.join(",");
         let mut stoks: Vec<String> = seq.iter().map(|s| tok(s)).collect(); stoks.sort();
@@ -187,7 +189,7 @@ fn run(line: &str) -> String {
             return out;
         }
         if workers <= 2 {
-            if let Some(msg) = pcap_modes(kind, &frames, workers, batch, timeout, db, &fnv(line)) { out.push_str(&format!("\t!{}", msg)); return out; }
+            if let Some(msg) = pcap_modes(kind, &frames, workers, batch, timeout, db, &fnv(line), cap) { out.push_str(&format!("\t!{}", msg)); return out; }
         }
         let keys: std::collections::BTreeSet<String> = seq.iter().map(|s| result_key(kind, s)).collect();
         for k in keys {
@@ -203,19 +205,30 @@ fn gen(r: &mut Rng, tier: &Tier, out: &mut Vec<String>) {
     let db = Database::load_default().expect("db");
     for case in 0..tier.scale(96, 1500) {
         let kind = [Kind::Tcp, Kind::Tls, Kind::Http][case % 3];
-        let n = 2 + r.below(5) as usize;
+        // every 8th case: a TLS pool whose flow-table capacity equals the number of connections, all ClientHellos
+        // split in two and all first halves in flight at once (round-robin interleaving)
+        let tight = case % 8 == 1 && kind == Kind::Tls;
+        let n = if tight { 12 + r.below(30) as usize } else { 2 + r.below(5) as usize };
         let mut conns = Vec::new();
         for j in 0..n {
+            if tight {
+                let mut sp = ConnSpec::new(1, false, (case as u64 * 17 + j as u64 * 7) % 4000 + j as u64 * 6000);
+                sp.force_segs = Some(2);
+                conns.push(connection(r, &sp, 1_000_000));
+                continue;
+            }
             let ck = match kind { Kind::Tcp => r.below(4), Kind::Tls => *r.pick(&[1u64, 1, 1, 0]), _ => *r.pick(&[0u64, 0, 3, 3, 2]) };
             let v6 = r.chance(1, 5);
             let mut sp = ConnSpec::new(ck, v6, (case as u64 * 13 + j as u64 * 101) % 5000 + j as u64 * 6000);
             sp.same_host = r.chance(1, 4);
             if case % 6 == 5 && j == 0 { sp.v6 = true; sp.same_host = true; }
+            if case % 5 == 2 && !sp.v6 { sp.client_ip_opts = true; }   // IPv4 options in one direction only
             conns.push(connection(r, &sp, 1_000_000));
         }
-        let tr = interleave(r, &conns, case % 4 == 0);
+        let tr = interleave(r, &conns, tight || case % 4 == 0);
         let frames: Vec<Vec<u8>> = tr.iter().map(|(_, (f, _))| f.clone()).collect();
-        let seq: Vec<String> = seq_texts(kind, &frames, &db).iter().map(|s| tok(s)).collect();
+        let cap = if tight { n } else { 1000 };
+        let seq: Vec<String> = seq_texts(kind, &frames, &db, cap).iter().map(|s| tok(s)).collect();
         // sharding identity index per packet
         let mut ids: Vec<String> = Vec::new();
         let mut conn_pos = vec![0usize; n];
@@ -231,7 +244,8 @@ fn gen(r: &mut Rng, tier: &Tier, out: &mut Vec<String>) {
         let workers = *r.pick(&[1usize, 2, 3, 4, 7, 8, 16]);
         let batch = *r.pick(&[1usize, 4, 32]);
         let timeout = *r.pick(&[1u64, 5, 20]);
-        let mut line = format!("{} W {} B {} T {} P", kind.tag(), workers, batch, timeout);
+        let workers = if tight { *r.pick(&[2usize, 3, 4, 8]) } else { workers };
+        let mut line = format!("{}{} W {} B {} T {} P", kind.tag(), if tight { cap.to_string() } else { String::new() }, workers, batch, timeout);
         for (i, f) in frames.iter().enumerate() { line.push_str(&format!(" {}:{}:{}", keys[i], seq[i], hex(f))); }
         // a random schedule for the model: dispatches interleaved with worker steps
         line.push_str(" S");
